@@ -247,3 +247,142 @@ def namesOk {ι : Type} (d : SchemaDef ι) : Bool :=
     && t.inputs.all (fun a => validName a.name.toList))
 
 end ApiFu.C10
+
+namespace ApiFu.C10
+
+/-! ### Literal coercion (§3 input coercion rules as implemented by `schema.CoerceLiteral`)
+
+  A specification of `schema.CoerceLiteral` (schema.go, list_type.go, input_object_type.go,
+  enum_type.go, builtins.go) on literals without variables, for the built-in scalars other than
+  Float. `none` = the literal does not coerce **or** the case is not covered: custom scalars (their
+  `LiteralCoercion` is an application callback), Float, and item-to-list coercion of a non-list
+  literal (printed lists are always bracketed). The result of an input object lists the provided
+  fields in literal order followed by the defaults of the omitted fields in declaration order (the
+  Go result is a map). `InputCoercion` callbacks are not represented. -/
+
+def isNonNull : TRef → Bool
+  | .nonNull _ => true
+  | _ => false
+
+def int32 (i : Int) : Bool := decide (-2147483648 ≤ i) && decide (i ≤ 2147483647)
+def int64 (i : Int) : Bool := decide (-9223372036854775808 ≤ i) && decide (i ≤ 9223372036854775807)
+
+mutual
+  def coerceLit {ι : Type} (d : SchemaDef ι) (t : TRef) : Lit → Option Value
+    | .null => if isNonNull t then none else some .null
+    | .int i =>
+      match stripNonNull t with
+      | .named n =>
+        if n = "Int" then (if int32 i then some (.int i) else none)
+        else if n = "ID" then (if int64 i then some (.int i) else none)
+        else none
+      | _ => none
+    | .str cs =>
+      match stripNonNull t with
+      | .named n => if n = "String" ∨ n = "ID" then some (.str (String.ofList cs)) else none
+      | _ => none
+    | .bool b =>
+      match stripNonNull t with
+      | .named n => if n = "Boolean" then some (.bool b) else none
+      | _ => none
+    | .enum name =>
+      match stripNonNull t with
+      | .named n =>
+        match d.lookup n with
+        | some td =>
+          if td.kind == .enum && td.values.any (fun v => v.name == String.ofList name)
+          then some (.enum (String.ofList name)) else none
+        | none => none
+      | _ => none
+    | .list xs =>
+      match stripNonNull t with
+      | .list item => (coerceItems d item xs).map .list
+      | _ => none
+    | .obj fs =>
+      match stripNonNull t with
+      | .named n =>
+        match d.lookup n with
+        | some td =>
+          if td.kind == .inputObject && nodupNames (fs.map (fun f => String.ofList f.1)) then
+            match coerceFields d td.inputs fs with
+            | some given =>
+              -- omitted fields: default if there is one, an error if the field is non-null
+              if td.inputs.all (fun a => given.any (fun g => g.1 == a.name) || a.default.isSome || !isNonNull a.type.ref) then
+                some (.obj (given ++ (td.inputs.filter (fun a => !given.any (fun g => g.1 == a.name))).filterMap
+                  (fun a => a.default.map (fun v => (a.name, v)))))
+              else none
+            | none => none
+          else none
+        | none => none
+      | _ => none
+  def coerceItems {ι : Type} (d : SchemaDef ι) (item : TRef) : List Lit → Option (List Value)
+    | [] => some []
+    | x :: xs =>
+      match coerceLit d item x, coerceItems d item xs with
+      | some v, some vs => some (v :: vs)
+      | _, _ => none
+  def coerceFields {ι : Type} (d : SchemaDef ι) (inputs : List (InputValueDef ι)) :
+      List (List Char × Lit) → Option (List (String × Value))
+    | [] => some []
+    | (k, x) :: fs =>
+      match inputs.find? (fun a => a.name == String.ofList k) with
+      | none => none                                    -- unknown field
+      | some a =>
+        match coerceLit d a.type.ref x, coerceFields d inputs fs with
+        | some v, some vs => some ((String.ofList k, v) :: vs)
+        | _, _ => none
+end
+
+/-! ### Coercion normal form: the values `CoerceLiteral` can produce -/
+
+mutual
+  /-- `nf d t v`: `v` is a value of type `t` in the form literal coercion produces (within the
+      covered classes): ints in range, enum values of the enum, lists element-wise, input objects
+      with distinct declared fields, every field that has a default or is non-null present. -/
+  def nf {ι : Type} (d : SchemaDef ι) (t : TRef) : Value → Bool
+    | .null => !isNonNull t
+    | .int i =>
+      match stripNonNull t with
+      | .named n => (n == "Int" && int32 i) || (n == "ID" && int64 i)
+      | _ => false
+    | .float _ => false
+    | .str _ =>
+      match stripNonNull t with
+      | .named n => n == "String" || n == "ID"
+      | _ => false
+    | .bool _ =>
+      match stripNonNull t with
+      | .named n => n == "Boolean"
+      | _ => false
+    | .enum name =>
+      match stripNonNull t with
+      | .named n =>
+        match d.lookup n with
+        | some td => td.kind == .enum && td.values.any (fun v => v.name == name)
+        | none => false
+      | _ => false
+    | .list vs =>
+      match stripNonNull t with
+      | .list item => nfList d item vs
+      | _ => false
+    | .obj fs =>
+      match stripNonNull t with
+      | .named n =>
+        match d.lookup n with
+        | some td =>
+          td.kind == .inputObject && nodupNames (fs.map (·.1)) && nfFields d td.inputs fs
+          && td.inputs.all (fun a => fs.any (fun g => g.1 == a.name) || (a.default.isNone && !isNonNull a.type.ref))
+        | none => false
+      | _ => false
+  def nfList {ι : Type} (d : SchemaDef ι) (item : TRef) : List Value → Bool
+    | [] => true
+    | v :: vs => nf d item v && nfList d item vs
+  def nfFields {ι : Type} (d : SchemaDef ι) (inputs : List (InputValueDef ι)) : List (String × Value) → Bool
+    | [] => true
+    | (k, v) :: fs =>
+      (match inputs.find? (fun a => a.name == k) with
+       | some a => nf d a.type.ref v
+       | none => false) && nfFields d inputs fs
+end
+
+end ApiFu.C10
